@@ -1087,3 +1087,247 @@ func freeVarCell(fv *ssa.FreeVar) *ssa.Alloc {
 	}
 	return nil
 }
+
+// ---- C20 exprmap.verbatim ------------------------------------------------------------------------------
+
+func init() {
+	registerExtra("C20", c20ExprVerbatim)
+	registerExtra("C08", func(c *Ctx) { unknownBodyTyped(c) })
+	registerExtra("C18", func(c *Ctx) { unknownBodyTyped(c) })
+}
+
+func c20ExprVerbatim(c *Ctx) {
+	c.Rule("exprmap.verbatim: the expressions that ObjectConsExpr.ExprMap and TupleConsExpr.ExprList hand out are the node's own child expressions (the KeyExpr / ValueExpr of each item, the elements of Exprs) unchanged — loaded from those fields, or passed through a helper every return of which is its parameter; a key handed out without its ObjectConsKeyExpr wrapper evaluates differently (a bare null/true/false keyword is an attribute name only inside the wrapper)")
+	n := 0
+	for _, name := range []string{"ObjectConsExpr.ExprMap", "TupleConsExpr.ExprList"} {
+		fn := c.P.LookupFunc("hclsyntax", name)
+		if fn == nil {
+			c.CheckerFail("exprmap.verbatim", "anchor "+name+" does not resolve")
+			continue
+		}
+		for _, b := range fn.Blocks {
+			for _, ins := range b.Instrs {
+				st, ok := ins.(*ssa.Store)
+				if !ok || !isNamed(st.Val.Type(), modPath, "Expression") {
+					continue
+				}
+				n++
+				c.Sites++
+				bad := ""
+				var judge func(v ssa.Value, d int)
+				judge = func(v ssa.Value, d int) {
+					for _, o := range originsOf(v, nil) {
+						switch x := o.(type) {
+						case *ssa.UnOp:
+							// a load of a field / element
+						case *ssa.Field, *ssa.Index, *ssa.Extract:
+							if ex, ok := x.(*ssa.Extract); ok {
+								if _, isCall := ex.Tuple.(*ssa.Call); isCall {
+									bad = describeOrigin(o)
+								}
+							}
+						case *ssa.Parameter:
+						case *ssa.Call:
+							k := staticCallee(&x.Call)
+							if k == nil || !inModule(k) || len(k.Blocks) == 0 || d > 2 || len(k.Params) == 0 {
+								bad = describeOrigin(o)
+								continue
+							}
+							for _, kb := range k.Blocks {
+								if r, ok := kb.Instrs[len(kb.Instrs)-1].(*ssa.Return); ok && len(r.Results) == 1 {
+									for _, ro := range originsOf(r.Results[0], nil) {
+										if _, isParam := ro.(*ssa.Parameter); !isParam {
+											bad = "result of " + FuncName(k) + ", which does not always return its argument"
+										}
+									}
+								}
+							}
+						default:
+							bad = describeOrigin(o)
+						}
+					}
+				}
+				judge(st.Val, 0)
+				c.Check(bad == "", "exprmap.verbatim", FuncName(fn)+":store[Expression]", st.Pos(), "the child expression itself",
+					"the static view hands out an expression that is the "+bad+", not the node's own child expression: evaluating the pair's key or value no longer gives what evaluating the whole constructor gives")
+			}
+		}
+	}
+	c.Floor("exprmap.verbatim stores", n, 3, "Key, Value and list elements")
+}
+
+// ---- C08/C18 unknownbody.typed -------------------------------------------------------------------------
+
+func unknownBodyTyped(c *Ctx) {
+	c.Rule("unknownbody.typed: in the decode methods of the hcldec block specs, an UnknownBody test made inside a loop over the content's blocks lies on the edge where the block's Type equals the spec's TypeName: an unknown body of ANOTHER block type in the same content says nothing about this spec's blocks")
+	n := 0
+	for _, fn := range c.P.pkgFuncs("hcldec") {
+		if fn.Name() != "decode" || fn.Signature.Recv() == nil || len(fn.Blocks) == 0 {
+			continue
+		}
+		isTest := func(ins ssa.Instruction) bool {
+			if ta, ok := ins.(*ssa.TypeAssert); ok && isNamed(ta.AssertedType, modPath+"/hcldec", "UnknownBody") {
+				return true
+			}
+			if call, ok := ins.(*ssa.Call); ok {
+				if k := staticCallee(&call.Call); k != nil && fnPkg(k) != nil && fnPkg(k).Path() == modPath+"/hcldec" && k.Name() != "decode" && len(k.Blocks) > 0 {
+					takesBody := false
+					for _, a := range call.Call.Args {
+						if isNamed(a.Type(), modPath, "Body") {
+							takesBody = true
+						}
+					}
+					if takesBody {
+						for _, kb := range k.Blocks {
+							for _, kin := range kb.Instrs {
+								if ta, ok := kin.(*ssa.TypeAssert); ok && isNamed(ta.AssertedType, modPath+"/hcldec", "UnknownBody") {
+									return true
+								}
+							}
+						}
+					}
+				}
+			}
+			return false
+		}
+		for _, b := range fn.Blocks {
+			for _, ins := range b.Instrs {
+				if !isTest(ins) || !inLoop(b) {
+					continue
+				}
+				n++
+				c.Sites++
+				c.Fn(FuncName(fn))
+				typed := false
+				for _, ce := range ctlEdges(b) {
+					bo, ok := ce.iff.Cond.(*ssa.BinOp)
+					if !ok || !isBasicString(bo.X.Type()) {
+						continue
+					}
+					has := func(v ssa.Value, f string) bool {
+						for fv := range fieldTrail(v) {
+							if fv.Name() == f {
+								return true
+							}
+						}
+						return false
+					}
+					if !((has(bo.X, "Type") && has(bo.Y, "TypeName")) || (has(bo.Y, "Type") && has(bo.X, "TypeName"))) {
+						continue
+					}
+					if (bo.Op == token.NEQ && !ce.onTrue) || (bo.Op == token.EQL && ce.onTrue) {
+						typed = true
+					}
+				}
+				c.Check(typed, "unknownbody.typed", FuncName(fn)+":test[UnknownBody]", ins.Pos(), "only for blocks of the spec's own type",
+					"the UnknownBody test is made for every block of the content, whatever its type: a dynamic block of another type with an unknown for_each makes this spec's (fully known) blocks decode as unknown")
+			}
+		}
+	}
+	c.Floor("unknownbody.typed tests in loops", n, 4, "list, tuple, set, map and object block specs")
+}
+
+// ---- C06 bodymarks.unknown -----------------------------------------------------------------------------
+
+func init() { registerExtra("C06", c06BodyMarksUnknown) }
+
+func c06BodyMarksUnknown(c *Ctx) {
+	c.Rule("bodymarks.unknown: in every hcldec block spec, the value returned once a child body has been found unknown (the true edge of u.Unknown()) has passed prepareBodyVal with a body: the unknown body generated for a dynamic block carries the marks of its for_each value, and an unknown for_each that is marked must give a marked unknown result, as a known one gives marked blocks")
+	prep := c.P.LookupFunc("hcldec", "prepareBodyVal")
+	if prep == nil {
+		c.CheckerFail("bodymarks.unknown", "anchor hcldec.prepareBodyVal does not resolve")
+		return
+	}
+	n := 0
+	for _, fn := range c.P.pkgFuncs("hcldec") {
+		if fn.Name() != "decode" || fn.Signature.Recv() == nil || len(fn.Blocks) == 0 {
+			continue
+		}
+		for _, b := range fn.Blocks {
+			iff, ok := lastIf(b)
+			if !ok {
+				continue
+			}
+			call, ok := iff.Cond.(*ssa.Call)
+			if !ok || !call.Call.IsInvoke() || call.Call.Method.Name() != "Unknown" || !isNamed(call.Call.Value.Type(), modPath+"/hcldec", "UnknownBody") {
+				continue
+			}
+			t := b.Succs[0]
+			for _, rb := range fn.Blocks {
+				r, ok := rb.Instrs[len(rb.Instrs)-1].(*ssa.Return)
+				if !ok || !edgeDominates(b, t, rb) || len(r.Results) == 0 {
+					continue
+				}
+				n++
+				c.Sites++
+				c.Fn(FuncName(fn))
+				marked := true
+				for _, o := range originsOf(lookThrough(r.Results[0]), nil) {
+					cl, isCall := o.(*ssa.Call)
+					if !isCall || staticCallee(&cl.Call) != prep {
+						marked = false
+					}
+				}
+				c.Check(marked, "bodymarks.unknown", FuncName(fn)+":return[unknown body]", r.Pos(), "passes prepareBodyVal",
+					"the unknown value returned for an unknown child body does not pass prepareBodyVal: the marks of a dynamic block's (unknown) for_each value are dropped, although a known for_each of the same sensitivity gives marked blocks")
+			}
+		}
+	}
+	c.Floor("bodymarks.unknown returns", n, 6, "BlockSpec, BlockListSpec, BlockTupleSpec, BlockSetSpec, BlockMapSpec, BlockObjectSpec")
+}
+
+// ---- C07 dyn.justattrs ---------------------------------------------------------------------------------
+
+func init() { registerExtra("C07", c07DynJustAttrs) }
+
+func c07DynJustAttrs(c *Ctx) {
+	c.Rule("dyn.justattrs (sibling rule): every hcldec spec whose variablesNeeded reads a child block's body in JustAttributes mode (all its attributes, whatever their names) has a counterpart in the hcldec-driven variable walker of ext/dynblock (walkVariablesWithHCLDec and what it calls): that walker visits bodies by schema only, so it must itself ask such a body for JustAttributes — otherwise VariablesHCLDec, documented as a drop-in replacement for hcldec.Variables, does not report the variables of those attributes")
+	var specs []string
+	for _, fn := range c.P.pkgFuncs("hcldec") {
+		if fn.Name() != "variablesNeeded" || fn.Signature.Recv() == nil || len(fn.Blocks) == 0 {
+			continue
+		}
+		for _, b := range fn.Blocks {
+			for _, ins := range b.Instrs {
+				if call, ok := ins.(*ssa.Call); ok && call.Call.IsInvoke() && call.Call.Method.Name() == "JustAttributes" {
+					if nm := namedOf(derefType(fn.Signature.Recv().Type())); nm != nil {
+						specs = append(specs, nm.Obj().Name())
+					}
+				}
+			}
+		}
+	}
+	sort.Strings(specs)
+	c.Floor("dyn.justattrs specs in JustAttributes mode", len(specs), 1, "BlockAttrsSpec")
+	root := c.P.LookupFunc("ext/dynblock", "walkVariablesWithHCLDec")
+	if root == nil {
+		c.CheckerFail("dyn.justattrs", "anchor ext/dynblock.walkVariablesWithHCLDec does not resolve")
+		return
+	}
+	c.Fn(FuncName(root))
+	asks := false
+	seen := map[*ssa.Function]bool{}
+	var walk func(f *ssa.Function)
+	walk = func(f *ssa.Function) {
+		if f == nil || seen[f] || fnPkg(f) == nil || fnPkg(f).Path() != modPath+"/ext/dynblock" || len(f.Blocks) == 0 {
+			return
+		}
+		seen[f] = true
+		for _, b := range f.Blocks {
+			for _, ins := range b.Instrs {
+				if cc, ok := ins.(ssa.CallInstruction); ok {
+					if cc.Common().IsInvoke() && cc.Common().Method.Name() == "JustAttributes" {
+						asks = true
+					}
+					walk(staticCallee(cc.Common()))
+				}
+			}
+		}
+	}
+	walk(root)
+	for _, sp := range specs {
+		c.Sites++
+		c.Check(asks, "dyn.justattrs", "ext/dynblock.walkVariablesWithHCLDec:justattrs["+sp+"]", root.Pos(), "the walker reads such bodies in JustAttributes mode",
+			"hcldec."+sp+" takes every attribute of its block's body (JustAttributes) and hcldec.Variables reports their variables, but the hcldec-driven walker of ext/dynblock only visits bodies by schema and never asks for JustAttributes: dynblock.VariablesHCLDec reports none of those variables")
+	}
+}
